@@ -173,7 +173,7 @@ class PRBSRX(LiteXModule):
         self.sync += [
             If(config == PRBS_CONFIG_OFF,
                 errors.eq(0)
-            ).Elif(~self.pause & (~with_errors_saturation | (errors != (2**32-1))),
+            ).Elif(~self.pause & ((not with_errors_saturation) | (errors != (2**32-1))),
                 If(config == PRBS_CONFIG_PRBS7,
                     errors.eq(errors + (prbs7.errors != 0))
                 ),
